@@ -1,6 +1,7 @@
 package e2e
 
 import (
+	"encoding/json"
 	"errors"
 	"fmt"
 	"io"
@@ -23,7 +24,9 @@ import (
 	"github.com/dfklegend/cell2/baseapp"
 	"github.com/dfklegend/cell2/baseapp/interfaces"
 	"github.com/dfklegend/cell2/node/app"
+	"github.com/dfklegend/cell2/node/builtin/msgs"
 	"github.com/dfklegend/cell2/node/client/impls"
+	clientcfg "github.com/dfklegend/cell2/node/client/impls/config"
 	"github.com/dfklegend/cell2/node/client/impls/pomelo"
 	cs "github.com/dfklegend/cell2/node/client/session"
 	actormodule "github.com/dfklegend/cell2/node/modules/actor"
@@ -32,6 +35,8 @@ import (
 	utils "github.com/dfklegend/cell2/nodeutils"
 	"github.com/dfklegend/cell2/utils/common"
 	"github.com/dfklegend/cell2/utils/logger"
+	cjson "github.com/dfklegend/cell2/utils/serialize/json"
+	gproto "google.golang.org/protobuf/proto"
 )
 
 // Instance numbering used by every model: 0 = the front (gate-1), 1 = chat-1, 2 = chat-2,
@@ -119,6 +124,7 @@ type Node struct {
 	activity int64
 	clock    int64
 	nextSent uint64
+	proto    bool
 
 	logMu sync.Mutex
 	hlog  []Invocation
@@ -416,6 +422,9 @@ func (n *Node) Sentinel(c *Client) error {
 	if c.Closed() {
 		return nil
 	}
+	if c.NotReady {
+		return n.flushNotReady(c)
+	}
 	n.mu.Lock()
 	mid := n.nextSent
 	n.nextSent++
@@ -423,7 +432,11 @@ func (n *Node) Sentinel(c *Client) error {
 		n.nextSent = SentinelLo
 	}
 	n.mu.Unlock()
-	if err := c.Request(mid, "gate.h.sentinel", []byte(`{}`)); err != nil {
+	route, payload := "gate.h.sentinel", []byte(`{}`)
+	if n.Proto() {
+		route, payload = "gate.h.psentinel", EncodeArg(true, map[string]any{})
+	}
+	if err := c.Request(mid, route, payload); err != nil {
 		if c.WaitClosed(time.Second) {
 			return nil
 		}
@@ -436,9 +449,105 @@ func (n *Node) Sentinel(c *Client) error {
 		}
 		return fmt.Errorf("e2e: sentinel %d unanswered", mid)
 	}
-	var r Reply
-	if jsonUnmarshal(ev.Data, &r) == nil && r.NetId != 0 {
+	if r, ok := DecodeReply(n.Proto(), ev.Data); ok && r.NetId != 0 {
 		c.NetId = r.NetId
+	}
+	return nil
+}
+
+// SetProto switches the client-facing serializer of the node (process-wide setting of
+// node/client/impls/config) between JSON (default) and protobuf.  Call it only while no
+// request is outstanding.
+func (n *Node) SetProto(on bool) {
+	if on {
+		clientcfg.PomeloSetProtoSerializer()
+	} else {
+		clientcfg.PomeloSetSerializer(cjson.GetDefaultSerializer())
+	}
+	n.mu.Lock()
+	n.proto = on
+	n.mu.Unlock()
+}
+
+// Proto reports whether the client serializer is protobuf.
+func (n *Node) Proto() bool {
+	n.mu.Lock()
+	defer n.mu.Unlock()
+	return n.proto
+}
+
+// EncodeArg encodes a harness argument for the current client serializer.
+func EncodeArg(proto bool, arg map[string]any) []byte {
+	b, _ := json.Marshal(arg)
+	if !proto {
+		return b
+	}
+	pb, _ := gproto.Marshal(&msgs.Hello1{S: string(b)})
+	return pb
+}
+
+func unwrapProto(proto bool, data []byte) ([]byte, bool) {
+	if !proto {
+		return data, true
+	}
+	var m msgs.Hello1
+	if err := gproto.Unmarshal(data, &m); err != nil {
+		return nil, false
+	}
+	return []byte(m.S), true
+}
+
+// DecodeReply decodes a response payload.
+func DecodeReply(proto bool, data []byte) (Reply, bool) {
+	var r Reply
+	b, ok := unwrapProto(proto, data)
+	if !ok || len(b) == 0 || json.Unmarshal(b, &r) != nil {
+		return r, false
+	}
+	return r, true
+}
+
+// DecodePush decodes a push payload; empty reports a message without any content (zero bytes
+// under protobuf, "{}" under JSON).
+func DecodePush(proto bool, data []byte) (b PushBody, empty, ok bool) {
+	raw, ok := unwrapProto(proto, data)
+	if !ok {
+		return b, false, false
+	}
+	if len(raw) == 0 || string(raw) == "{}" {
+		return b, true, true
+	}
+	if json.Unmarshal(raw, &b) != nil {
+		return b, false, false
+	}
+	return b, false, true
+}
+
+// flushNotReady stands in for the sentinel on a connection that is in the handshake state (the
+// server ignores its data packets): everything the client sent before the re-handshake was
+// processed when the handshake response arrived; what remains is to wait until the connection's
+// send queue is empty and the client has stopped receiving.
+func (n *Node) flushNotReady(c *Client) error {
+	if c.NetId == 0 {
+		return nil
+	}
+	sess, err := n.ClientSessionOf(c.NetId)
+	if err != nil {
+		return err
+	}
+	deadline := time.Now().Add(waitTimeout)
+	for idle := 0; idle < 3; {
+		before := c.Count()
+		time.Sleep(time.Millisecond)
+		l, _, ok := n.SendQueueLen(sess)
+		if (!ok || l == 0) && c.Count() == before {
+			idle++
+		} else {
+			idle = 0
+		}
+		if time.Now().After(deadline) {
+			return fmt.Errorf("e2e: connection %d in handshake state never became quiet", c.NetId)
+		}
 	}
 	return nil
 }
